@@ -209,9 +209,12 @@ impl SubCheck for OnDemand {
         let mut p = GraphParams::small();
         p.max_props = 3;
         p.min_props = 1;
-        p.exps = vec![Exp::Always, Exp::Sometimes];
+        p.exps = vec![Exp::Always, Exp::Sometimes, Exp::Eventually];
         p.force_true_always = true;
         p.max_n = 16;
+        // forests (every state reachable by one path) are where eventually-verdicts are exact, so
+        // that "finishes like BFS" can be demanded of them too
+        p.shapes.push((4, Shape::Forest));
         (graph_strategy(p), proptest::collection::vec((any::<u8>(), proptest::bool::weighted(0.2)), 0..7), proptest::bool::weighted(0.4))
             .prop_map(|(mut g, requests, burst)| {
                 if burst {
@@ -321,6 +324,16 @@ impl SubCheck for OnDemand {
         for (k, p) in g.props.iter().enumerate() {
             if let Some(want) = expect_discovery(g, &r.set, p) {
                 ensure!(disc.contains_key(PROP_NAMES[k]) == want, "c19/on-demand/verdict-differs-from-bfs", "property {}: discovery present = {}, BFS verdict {}", PROP_NAMES[k], !want, want);
+            } else if p.exp == Exp::Eventually {
+                // never a false alarm; on forests exactly BFS's verdict (C11's two halves)
+                let violated = g.eventually_violated(&p.on);
+                let got = disc.contains_key(PROP_NAMES[k]);
+                ensure!(!got || violated, "c19/on-demand/eventually-false-alarm", "property {} has a counterexample after run_to_completion but every maximal in-boundary path satisfies it", PROP_NAMES[k]);
+                if g.is_forest() {
+                    ensure!(got == violated, "c19/on-demand/verdict-differs-from-bfs", "eventually-property {} on a forest: discovery present = {}, BFS (exact on forests) reports {}", PROP_NAMES[k], got, violated);
+                    cov.label_if(violated, "forest_eventually_counterexample");
+                    cov.label_if(violated && g.edges.iter().enumerate().any(|(s, es)| r.set.contains(&(s as u32)) && !es.is_empty() && g.succ_inb(s as u32).is_empty() && !p.on.contains(&(s as u32))), "forest_counterexample_may_end_at_the_boundary");
+                }
             }
         }
         cov.label_if(effective >= 2, "two_targeted_requests");
@@ -333,7 +346,7 @@ impl SubCheck for OnDemand {
         Ok(())
     }
     fn mandatory(&self) -> Vec<&'static str> {
-        vec!["two_targeted_requests", "request_for_unknown_fingerprint", "burst_of_requests"]
+        vec!["two_targeted_requests", "request_for_unknown_fingerprint", "burst_of_requests", "forest_eventually_counterexample", "forest_counterexample_may_end_at_the_boundary"]
     }
 }
 
